@@ -31,8 +31,9 @@ META = {
         'content of slots outside head..tail (pcbasic writes a CR there when full), the full-buffer beep (only '
         'counted), where in the ring an empty buffer starts (adopted from the first observation, then tracked with '
         'ring arithmetic), the low byte of an extended key (0 or 0xE0 accepted). INPUT is only issued when an Enter '
-        'is waiting behind plain alphanumerics; INPUT$(n) only for n waiting single-byte keys; function keys '
-        '(macro expansion), Ctrl+C/Break/Pause keys and POKEs that move a pointer outside the waiting range (or to an odd / non-slot value) are not generated. After the '
+        'is waiting behind plain alphanumerics; INPUT$(n) only when the next n items to be delivered are single characters; soft keys F1..F10 are in the key stream '
+        'under default, empty, 1..15-character and CR-containing KEY n texts (a key is never redefined while it waits and the '
+        'pointers are never POKEd while a text is partly read; F11/F12 and shifted function keys are not generated); Ctrl+C/Break/Pause keys and POKEs that move a pointer outside the waiting range (or to an odd / non-slot value) are not generated. After the '
         'first divergence a history is abandoned (the model and the interpreter no longer share a state).'),
     'rule': ('case = one history (list of key-burst / read / INPUT / INPUT$ / clear / peek operations, run mode); distinct by '
              'that list; non-trivial = at least one keystroke was read back or inspected through PEEK'),
@@ -42,7 +43,7 @@ META = {
     'exhaustive': {
         'quick': 'directed core only: clearing POKE at all 16 ring positions x all 16 fill levels (0..15), bursts of 14..18 keys at all 16 ring positions; histories are sampled',
         'thorough': 'directed core only: clearing POKE at all 16 ring positions x all 16 fill levels (0..15), bursts of 14..18 keys at all 16 ring positions; histories are sampled'},
-    'require_counters': {'any': ['keys_dropped_at_full', 'ring_wraps', 'clear_pokes_nonempty', 'partial_pokes_leaving_keys_waiting', 'peek_sweeps',
+    'require_counters': {'any': ['soft_keys_delivered_as_text', 'soft_keys_with_empty_text_delivered_as_key', 'keys_dropped_at_full', 'ring_wraps', 'clear_pokes_nonempty', 'partial_pokes_leaving_keys_waiting', 'peek_sweeps',
                                  'reads_nonempty', 'reads_empty']},
     'timeout': {'quick': 900, 'thorough': 7200},
 }
@@ -73,6 +74,35 @@ def _ext_keys():
             [u'\0G', sc.HOME], [u'\0O', sc.END], [u'\0I', sc.PAGEUP], [u'\0Q', sc.PAGEDOWN]]
 
 
+def _fkeys():
+    """F1..F10 as [eascii, scancode]."""
+    return [[u'\0' + chr(0x3a + n), 0x3a + n] for n in range(1, 11)]
+
+
+MACRO_CHARS = u'abcXYZ019 ,:"'.replace(u'"', u'') + u'\r'
+
+
+def macro_stmt(n, text):
+    """KEY n,<string expression for text> (text: str of printable characters and CR)."""
+    parts, cur = [], u''
+    for ch in text:
+        if ch == u'\r':
+            if cur:
+                parts.append(u'"%s"' % cur)
+                cur = u''
+            parts.append(u'CHR$(13)')
+        else:
+            cur += ch
+    if cur or not parts:
+        parts.append(u'"%s"' % cur)
+    return (u'KEY %d,%s' % (n, u'+'.join(parts))).encode('ascii')
+
+
+def gen_macro(rng):
+    ln = rng.choice([0, 0, 0, 1, 2, 3, 5, 15, rng.randint(1, 15)])
+    return u''.join(rng.choice(MACRO_CHARS) for _ in range(ln))
+
+
 def key_bytes(k):
     """The byte string INKEY$ must return for keystroke k = [chars, scan]."""
     c = k[0]
@@ -81,7 +111,9 @@ def key_bytes(k):
     return c.encode('cp437')
 
 
-def gen_key(rng, ext, input_safe=False):
+def gen_key(rng, ext, input_safe=False, fkey=0.0):
+    if not input_safe and fkey and rng.random() < fkey:
+        return list(rng.choice(_fkeys()))
     r = rng.random()
     if input_safe or r < 0.55:
         return [rng.choice(PLAIN), None]
@@ -100,11 +132,27 @@ def gen_history(rng, ext, with_clear):
     """A history as a list of JSON-able ops, generated against a private model for feasibility."""
     m = rk.Kbd()
     ops = []
-    style = rng.choice(['mixed', 'mixed', 'full', 'trickle', 'line'])
+    style = rng.choice(['mixed', 'mixed', 'full', 'trickle', 'line', 'softkeys', 'softkeys'])
+    fk = 0.3 if style == 'softkeys' else (0.03 if style in ('mixed', 'full') else 0.0)
     n_ops = rng.randint(8, 45)
+
+    def drain():
+        # never leave a soft-key text partly read before something other than a read happens
+        if m.expansion:
+            n = len(m.expansion)
+            for _ in range(n):
+                m.read()
+            ops.append(['r', n])
+
     for _ in range(n_ops):
         r = rng.random()
         waiting = len(m.fifo)
+        if style == 'softkeys' and rng.random() < 0.18 and not m.expansion and not any(rk.fkey_number(k) for k in m.fifo):
+            # (re)define a soft key while none is waiting
+            n, text = rng.randint(1, 10), gen_macro(rng)
+            m.set_macro(n, text.encode('ascii'))
+            ops.append(['m', n, text])
+            continue
         if r < 0.34 or not ops:
             if style == 'full':
                 n = rng.choice([14, 15, 16, 17, 20, 25, rng.randint(1, 25)])
@@ -115,7 +163,7 @@ def gen_history(rng, ext, with_clear):
             if style == 'line' and rng.random() < 0.7:
                 keys = [gen_key(rng, ext, True) for _ in range(rng.randint(0, 6))] + [[u'\r', 28]]
             else:
-                keys = [gen_key(rng, ext) for _ in range(n)]
+                keys = [gen_key(rng, ext, fkey=fk) for _ in range(n)]
             for k in keys:
                 m.key(key_bytes(k))
             ops.append(['k', keys])
@@ -127,16 +175,19 @@ def gen_history(rng, ext, with_clear):
             for _ in range(n):
                 m.read()
             ops.append(['r', n])
+            drain()
         elif r < 0.70:
+            st = m.stream()
             if m.can_input():
                 m.read_line()
                 ops.append(['i'])
-            elif waiting and all(len(k) == 1 for k in m.fifo[:1]):
+            elif st and len(st[0]) == 1:
                 n = 1
-                while n < waiting and len(m.fifo[n]) == 1 and rng.random() < 0.6:
+                while n < len(st) and len(st[n]) == 1 and rng.random() < 0.6:
                     n += 1
                 m.read_n(n)
                 ops.append(['n', n])
+                drain()
         elif r < 0.80 and with_clear and waiting and rng.random() < 0.45:
             # partial skip: head forward / tail back within the waiting range
             k = rng.randint(0, waiting)
@@ -158,7 +209,7 @@ def gen_history(rng, ext, with_clear):
             ops.append(['p', 1])
     # finish by reading everything back and looking at the ring
     ops.append(['p', 1])
-    ops.append(['r', len(m.fifo) + 2])
+    ops.append(['r', len(m.stream()) + 2])
     ops.append(['p', 0])
     return ops
 
@@ -285,6 +336,12 @@ class Runner(object):
                 self.res.count('clear_pokes_nonempty')
             m.cleared = True
             m.last_poke = 'clear'
+        elif c == 'm':
+            out = box.ex(macro_stmt(op[1], op[2]))
+            if h.err_of(out)[0]:
+                raise Divergence('statement-error', '%s -> %r' % (macro_stmt(op[1], op[2]), out))
+            m.set_macro(op[1], op[2].encode('ascii'))
+            self.res.count('soft_key_definitions')
         elif c in ('h', 't'):
             out = box.ex(poke_stmt(c, op[1]))
             if h.err_of(out)[0]:
@@ -341,6 +398,8 @@ class Runner(object):
                 body.append(('s', b'POKE 1050,PEEK(1052)', ('c',)))
             elif c in ('h', 't'):
                 body.append(('s', poke_stmt(c, op[1]), (c, op[1])))
+            elif c == 'm':
+                body.append(('s', macro_stmt(op[1], op[2]), ('m', op[1], op[2])))
             elif c == 'p':
                 addrs = list(range(1050, 1086)) if op[1] else [1050, 1051, 1052, 1053]
                 first = npk
@@ -411,6 +470,9 @@ class Runner(object):
                     m.last_poke = 'clear'
                 elif c in ('h', 't'):
                     self._partial(m, c, act[1])
+                elif c == 'm':
+                    m.set_macro(act[1], act[2].encode('ascii'))
+                    self.res.count('soft_key_definitions')
                 elif c == 'p':
                     mem = dict((a, P[act[1] + i]) for i, a in enumerate(act[2]))
                     self._cmp_view(m, mem, act[3])
@@ -452,6 +514,10 @@ class Runner(object):
             res.maxc('max_keys_accepted_in_one_history', m.total)
             if m.wraps:
                 res.count('ring_wraps', m.wraps)
+            if m.expanded:
+                res.count('soft_keys_delivered_as_text', m.expanded)
+            if m.unexpanded:
+                res.count('soft_keys_with_empty_text_delivered_as_key', m.unexpanded)
         res.case(repr(case), nontrivial=(m.total > 0))
         res.count('histories_held')
         return True
@@ -493,6 +559,19 @@ def directed_cases():
                     ops += [['k', _keys(u'abcdefghijklmno'[:fill])], ['p', 0], [which, k], ['p', 1], ['r', 2],
                             ['k', _keys(u'XYZ')], ['p', 1], ['r', 17], ['p', 0]]
                     out.append(('poke-%s%d@%d/%d' % (which, k, pos, fill), ops))
+    # soft keys in the key stream under every definition state: default texts, empty, 1 / 15 characters, CR inside
+    FK = _fkeys()
+    for n in range(1, 11):
+        k = FK[n - 1]
+        out.append(('softkey-default F%d' % n, [['k', [[u'x', None], k, [u'y', None]]], ['p', 1], ['r', 3], ['p', 0], ['r', 16], ['p', 1]]))
+        out.append(('softkey-empty F%d' % n, [['m', n, u''], ['k', [[u'a', None], k, [u'b', None]]], ['p', 1], ['r', 2], ['p', 1], ['r', 3], ['p', 0]]))
+        for text in (u'Q', u'0123456789abcde', u'ab\rcd', u'\r', u'go\r'):
+            out.append(('softkey F%d %r' % (n, text), [['m', n, text], ['k', [k, [u'z', None], k]], ['p', 1], ['r', 1], ['p', 1],
+                                                        ['r', 2 * len(text) + 3], ['p', 0]]))
+    out.append(('softkey-mix', [['m', 1, u''], ['m', 2, u'two'], ['m', 3, u'x\r'], ['k', [FK[0], FK[1], FK[2], FK[0], [u'q', None], FK[3]]],
+                                ['p', 1], ['r', 1], ['n', 3], ['p', 1], ['r', 3], ['p', 1], ['r', 12], ['p', 0]]))
+    out.append(('softkey-full', [['m', 5, u'hi'], ['m', 6, u''], ['k', [FK[4], FK[5]] * 9], ['p', 1], ['r', 40], ['p', 1]]))
+    out.append(('softkey-clear', [['m', 7, u''], ['k', [FK[6], [u'a', None], FK[6]]], ['r', 1], ['c'], ['r', 3], ['k', [FK[6]]], ['p', 1], ['r', 2]]))
     # bursts around the capacity at every ring position: what is held, what is dropped, in which order
     for pos in range(16):
         for n in (14, 15, 16, 17, 18):
